@@ -345,3 +345,190 @@ M.contract(P_PFD + ':InstructionParserForDictionaryOfInstructions.parse',
            ensures={'the instruction parser is asked once': lambda trace:
            len([e for e in trace if e[0] == 'instruction-parser']) == 1},
            raises=dict(_FOUR), raises_only=())
+
+# ------------------------------------------------------------------------------ the last resorts
+from exactly_lib.execution.impl import single_instruction_executor as sie
+from exactly_lib.execution.result import ExecutionFailureStatus
+from exactly_lib.execution.full_execution.result import FullExeResult, FullExeResultStatus
+from exactly_lib.processing import processing_utils, test_case_processing as tcp
+from exactly_lib.test_case.phases.common import TestCaseInstruction
+from exactly_lib.test_case.result.failure_details import FailureDetails
+
+
+HARD_ERROR_EXC = Inst(HardErrorException, _error=Any_)
+
+
+def _controlled_apply(interp, self, args, kwargs):
+    """ControlledInstructionExecutor.apply: runs a step of an instruction (arbitrary code): None (success), a
+    controlled failure, HardErrorException, or any other Exception"""
+    k = interp.st.choose(4)
+    if k == 0:
+        return None
+    if k == 1:
+        return sie.PartialInstructionControlledFailureInfo(
+            EnumOf(sie.PartialControlledFailureEnum).make(interp, 'controlled_failure.status'),
+            Any_.make(interp, 'controlled_failure.error_message'))
+    if k == 2:
+        raise PyRaise(HARD_ERROR_EXC.make(interp, 'hard_error'))
+    raise PyRaise(_models.arbitrary_exception(interp))
+
+
+class ControlledExecutorI(Interface):
+    target_class = sie.ControlledInstructionExecutor
+    methods = {'apply': Method(model=_controlled_apply)}
+
+
+class InstructionInfoI(Interface):
+    attrs = {'instruction': Iface(lambda: TestCaseInstructionI)}
+
+
+class TestCaseInstructionI(Interface):
+    target_class = TestCaseInstruction
+
+
+class SourceLocationInfoI(Interface):
+    attrs = {'source_location_path': Any_}
+
+
+class SectionContentElementI(Interface):
+    attrs = {'source_location_info': Iface(SourceLocationInfoI)}
+
+
+P_SIE = 'exactly_lib.execution.impl.single_instruction_executor'
+
+M.contract(P_SIE + ':execute_element',
+           params=dict(executor=Iface(ControlledExecutorI), element=Iface(SectionContentElementI),
+                       instruction_info=Iface(InstructionInfoI)),
+           ensures={
+               'None, or a failure with one of the documented statuses, located at the instruction':
+                   lambda element, result:
+                   result is None or (isinstance(result.status, ExecutionFailureStatus)
+                                      and result.source_location_path
+                                      is element.source_location_info.source_location_path
+                                      and isinstance(result.failure_details, FailureDetails)),
+               'INTERNAL_ERROR carries the exception; the other failures carry a message only': lambda result:
+               result is None or ((result.status is ExecutionFailureStatus.INTERNAL_ERROR)
+                                  == result.failure_details.has_exception),
+           },
+           raises_only=())      # whatever an instruction raises, execution of the test case goes on to reporting
+
+
+# --- the processor of a test case: always a Result
+
+def _mk_accessor_error(interp, o):
+    e = tcp.AccessorError.__new__(tcp.AccessorError)
+    e._error = EnumOf(tcp.AccessErrorType).make(interp, 'accessor_error.error')
+    e._error_info = Any_.make(interp, 'accessor_error.error_info')
+    return e
+
+
+def _mk_process_error(interp, o):
+    e = tcp.ProcessError.__new__(tcp.ProcessError)
+    e._error_info = Any_.make(interp, 'process_error.error_info')
+    return e
+
+
+def _mk_anything(interp, o):
+    return _models.arbitrary_exception(interp)
+
+
+class AccessorI(Interface):
+    """Accessor.apply: the test case document, AccessorError (its docstring) -- or any other Exception"""
+    target_class = tcp.Accessor
+    methods = {'apply': Method(returns=Any_, may_raise=(_mk_accessor_error, _mk_anything), event='access')}
+
+
+FULL_EXE_RESULT = Inst(FullExeResult, _FullExeResult__status=EnumOf(FullExeResultStatus), _ResultBase__sds=Any_,
+                       _ResultBase__action_to_check_outcome=Any_, _ResultBase__failure_info=Any_)
+
+
+class ExecutorI(Interface):
+    """processing_utils.Executor.apply: the result of the execution -- or any Exception"""
+    target_class = processing_utils.Executor
+    methods = {'apply': Method(returns=FULL_EXE_RESULT, may_raise=(_mk_process_error, _mk_anything),
+                               event='execute')}
+
+
+class CaseRefI(Interface):
+    target_class = tcp.TestCaseFileReference
+    attrs = {'file_path': Any_, 'path_relativity_root_dir': Any_}
+
+
+def result_is_well_formed(result):
+    return iff(result.status is tcp.Status.ACCESS_ERROR, result.access_error_type is not None) \
+        and iff(result.status is tcp.Status.EXECUTED, result.execution_result is not None)
+
+
+def _events(trace, name):
+    return [e for e in trace if e[0] == name]
+
+
+M.contract('exactly_lib.processing.processing_utils:ProcessorFromAccessorAndExecutor.apply',
+           params=dict(self=Inst(processing_utils.ProcessorFromAccessorAndExecutor, _accessor=Iface(AccessorI),
+                                 _executor=Iface(ExecutorI)), test_case=Iface(CaseRefI)),
+           ensures={
+               'a well formed Result': lambda result: isinstance(result, tcp.Result) and result_is_well_formed(result),
+               'EXECUTED carries the result of the executor': lambda result, trace:
+               result.status is not tcp.Status.EXECUTED
+               or [e[2] for e in _events(trace, 'execute:returned')] == [result.execution_result],
+               'an AccessorError is ACCESS_ERROR with its type; the case is then not executed': lambda result, trace:
+               result.status is not tcp.Status.ACCESS_ERROR
+               or (_events(trace, 'execute') == []
+                   and [e[2].error for e in _events(trace, 'access:raised')] == [result.access_error_type]),
+           },
+           raises_only=())      # "Exactly always terminates with a Result"
+
+
+class ProcessStepI(Interface):
+    """source reader / preprocessor / parser: a value, ProcessError (docstrings), AccessorError, or anything"""
+    methods = {'__call__': Method(returns=Any_, may_raise=(_mk_process_error, _mk_accessor_error, _mk_anything),
+                                  event='step')}
+
+
+def _what_the_step_raised(trace):
+    return [e[2] for e in trace if e[0] == 'step:raised'][0]
+
+
+M.contract('exactly_lib.processing.processing_utils:AccessorFromParts._apply',
+           params=dict(f=Iface(ProcessStepI), error_type=EnumOf(tcp.AccessErrorType),
+                       args=FixedList(Any_, as_tuple=True), kwargs=Const({})),
+           raises={tcp.AccessorError: {'ensures': lambda exc, error_type, trace:
+           (exc.error is error_type and exc.error_info is _what_the_step_raised(trace).error_info)
+           if isinstance(_what_the_step_raised(trace), tcp.ProcessError) else exc is _what_the_step_raised(trace)}},
+           # a ProcessError of the step becomes an AccessorError of the given type; nothing else is touched
+           may_raise=(ArbitraryException,) + tuple(_models.COMMON_EXCEPTIONS), raises_only=())
+
+# ------------------------------------------------------------------------------ rendering of every failure shape
+from exactly_lib.common.report_rendering.parts import failure_details as failure_details_rendering
+from exactly_lib.common.report_rendering.parts import full_exec_result, failure_info as failure_info_rendering
+from exactly_lib.util.simple_textstruct.structure import MajorBlock
+
+
+class TextRendererI(Interface):
+    """TextRenderer = SequenceRenderer[MajorBlock]"""
+    methods = {'render_sequence': Method(returns=Custom(lambda interp, name: [Any_.make(interp, name + '[0]')]))}
+
+
+FAILURE_DETAILS = Inst(FailureDetails, _FailureDetails__failure_message=Opt(Iface(TextRendererI)),
+                       _FailureDetails__exception=Opt(Custom(lambda interp, name: _models.arbitrary_exception(interp))))
+
+M.contract('exactly_lib.common.report_rendering.parts.failure_details:FailureDetailsRenderer.render_sequence',
+           params=dict(self=Inst(failure_details_rendering.FailureDetailsRenderer, _failure_details=FAILURE_DETAILS)),
+           ensures={
+               'total on every shape: a message, an exception, both, or neither': lambda result:
+               isinstance(result, list),
+               'an exception gives a block of its own, before the message': lambda self, result:
+               len(result) == (1 if self._failure_details.has_exception else 0)
+               + (1 if self._failure_details.failure_message is not None else 0)
+               and ((not self._failure_details.has_exception) or isinstance(result[0], MajorBlock)),
+           }, raises_only=())
+
+M.contract('exactly_lib.common.report_rendering.parts.full_exec_result:FullExeResultRenderer._renderer',
+           params=dict(self=Inst(full_exec_result.FullExeResultRenderer,
+                                 _result=Inst(FullExeResult, _FullExeResult__status=EnumOf(FullExeResultStatus),
+                                              _ResultBase__sds=Any_, _ResultBase__action_to_check_outcome=Any_,
+                                              _ResultBase__failure_info=Opt(Any_)))),
+           ensures={'the failure, if there is one, else nothing': lambda self, result:
+           isinstance(result, failure_info_rendering.FailureInfoRenderer) == self._result.is_failure
+           and (self._result.is_failure or result.render_sequence() == [])},
+           raises_only=())
